@@ -1,9 +1,11 @@
-/- Driver ops for Sokoban.  Ops: sokoban.state, sokoban.step, sokoban.judge, sokoban.instance, sokoban.bounds -/
+/- Driver ops for Sokoban.  Ops: sokoban.state, sokoban.step, sokoban.judge, sokoban.instance, sokoban.bounds, sokoban.spec -/
 import JumanjiModel.Bridge.Json
 import JumanjiModel.Env.Sokoban.Model
 import JumanjiModel.Env.Sokoban.Bounds
 import JumanjiModel.Env.Sokoban.Generator
 import JumanjiModel.Prim.Float
+import JumanjiModel.Bridge.Spec
+import JumanjiModel.Env.Sokoban.SpecLemmas
 open Lean Jb
 
 namespace Jb.Sokoban
@@ -32,6 +34,8 @@ def jState (s : State) : Json :=
 def jObs (o : Obs) : Json :=
   jObj [("variable_grid", jIntGrid o.vgrid), ("fixed_grid", jIntGrid o.fgrid), ("step_count", jInt o.stepCount)]
 
+def jNValue (v : Sp.NValue) : Json := jList (fun (e : String × Sp.Arr) => jObj [("key", jStr e.1), ("value", SpecOps.jArr e.2)]) v
+
 /-- {cfg, state} → legal (L2, 4 directions), obs (L2), consistent, objective (boxes on targets) -/
 def opState : Op := fun j => do
   let (cfg, _) ← getCfg j
@@ -39,7 +43,15 @@ def opState : Op := fun j => do
   pure (jObj [("legal", jBools ((List.range 4).map (fun a => decide (legal cfg.n s a)))),
               ("obs", jObs (observe s)),
               ("consistent", jBool (decide (Consistent cfg.n s))),
-              ("objective", jNat (boxesOnTarget cfg.n s))])
+              ("objective", jNat (boxesOnTarget cfg.n s)),
+              -- wave 3: C06 `IsSolution` (consistent and every box on a target, cell by cell); C01 / C12: the timestep the
+              -- model's `reset` builds on this state, the model observation as spec-level arrays (`grid` stacked on the
+              -- last axis) and its membership in the model's `obsSpec cfg`
+              ("solution", jBool (decide (Consistent cfg.n s) &&
+                 (Jx.Grid.coords cfg.n cfg.n).all (fun p => Jx.Grid.get s.vgrid 0 p.1 p.2 != BOX || Jx.Grid.get s.fgrid 0 p.1 p.2 == TARGET))),
+              ("reset_ts", jTimeStep jObs (reset s).2),
+              ("nvalue", jNValue (toNValue cfg (stateToObs s))),
+              ("obs_in_spec", jBool ((obsSpec cfg).valid (toNValue cfg (stateToObs s))))])
 
 /-- {cfg, state, action} → L1 step; valid = L2 legality; spec = L2 successor, reward, done -/
 def opStep : Op := fun j => do
@@ -91,6 +103,13 @@ def opBounds : Op := fun j => do
   let jo : Option Rat → Json := fun o => match o with | none => .null | some r => jRat r
   pure (jObj ((obsBounds cfg).map (fun (k, lo, hi) => (k, jObj [("lo", jo lo), ("hi", jo hi)]))))
 
+/-- {cfg} → the model's `obsSpec cfg`, `actionSpec`, reward and discount spec in the `speclib.leaf_json` layout -/
+def opSpec : Op := fun j => do
+  let (cfg, _) ← getCfg j
+  pure (jObj [("observation_spec", SpecOps.jNested (obsSpec cfg)), ("action_spec", SpecOps.jLeaf actionSpec),
+              ("reward_spec", SpecOps.jLeaf PzS.rewardSpec), ("discount_spec", SpecOps.jLeaf PzS.discountSpec),
+              ("action_spec_wf", jBool actionSpec.WF), ("generate_value", SpecOps.jArr actionSpec.generate)])
+
 def ops : List (String × Op) :=
-  [("sokoban.bounds", opBounds), ("sokoban.state", opState), ("sokoban.step", opStep), ("sokoban.judge", opJudge), ("sokoban.instance", opInstance)]
+  [("sokoban.spec", opSpec), ("sokoban.bounds", opBounds), ("sokoban.state", opState), ("sokoban.step", opStep), ("sokoban.judge", opJudge), ("sokoban.instance", opInstance)]
 end Jb.Sokoban
